@@ -70,8 +70,8 @@ pub fn observe(sm: &StateMachine, at_end: bool) {
         Some(g) if matches!(g.line_type, handlers::grep::LineType::Ignore) => 2,
         Some(_) => 1,
     };
-    let blame =
-        handlers::blame::parse_git_blame_line(&sm.line, &sm.config.blame_timestamp_format).is_some();
+    let blame = handlers::blame::parse_git_blame_line(&sm.line, &sm.config.blame_timestamp_format)
+        .is_some();
     let submodule = handlers::submodule::get_submodule_short_commit(&sm.line)
         .map(hex)
         .unwrap_or_else(|| "-".to_string());
